@@ -20,6 +20,7 @@ BF == INSTANCE BasisFile
 NL == INSTANCE NumLit
 LPF == INSTANCE LPFile
 MPSF == INSTANCE MPSFile
+RES == INSTANCE Residue
 
 Tr == ndJsonDeserialize(IOEnv.TRACE)
 VerdictFile == IOEnv.VERDICT
@@ -48,6 +49,7 @@ NewH(lp, sync) == [live |-> TRUE, sync |-> sync, lp |-> lp,
                    dirty |-> FALSE,      \* an edit happened since the last dump
                    lastres |-> [none |-> TRUE],   \* [status, val] of the last solve / solution observation
                    lastany |-> [none |-> TRUE],   \* [rval, status, call] of the last solve call, definitive or not
+                   resid |-> [none |-> TRUE],     \* last observed residue (stored basis / stored solution / status) of the handle
                    truth |-> [none |-> TRUE],   \* verified witness of the LP's true status (reset by edits)
                    limits |-> FALSE]     \* iteration / objective limits set (non-definitive results legal)
 
@@ -702,9 +704,17 @@ Next ==
                  prior == IF isSolve THEN {a \in ans : a.c = cont} ELSE {}
                  clash == {a \in prior : a.status # stat \/ (a.val # "?" /\ val # "?" /\ a.val # val)}
                  a1 == CHOOSE a \in clash : TRUE
+                 \* residue rules (Residue.tla): the three observables the driver logs after every call
+                 hasRes == "res" \in DOMAIN ev /\ "qstatus" \in DOMAIN ev.res
+                 resNow == IF hasRes THEN RES!Proj(ev.res) ELSE NoneR
+                 resOld == IF s0.live /\ "resid" \in DOMAIN s0 THEN s0.resid ELSE NoneR
+                 vRes == IF hasRes /\ ~IsNone(resOld) /\ "rval" \in DOMAIN ev /\ RES!RejectedChanged(ev.call, ev.rval, resOld, resNow)
+                         THEN {V(ev, {"C07"}, "a rejected call changed the stored basis / solution / status: before " \o ToString(resOld) \o " after " \o ToString(resNow))} ELSE {}
+                 vDrift == IF hasRes /\ ~IsNone(resOld) /\ "rval" \in DOMAIN ev /\ RES!Drift(ev.call, ev.rval, resOld, resNow)
+                           THEN {V(ev, {"SPEC-DRIFT"}, "residue after " \o ev.call \o " is " \o ToString(resNow) \o ", the rules allow " \o ToString(RES!After(ev.call, resOld)))} ELSE {}
              IN
-             /\ st' = [st EXCEPT ![ev.h] = r.s]
-             /\ viol' = viol \cup r.v \cup Quiet(ev)
+             /\ st' = [st EXCEPT ![ev.h] = IF r.s.live /\ hasRes THEN [r.s EXCEPT !.resid = resNow] ELSE r.s]
+             /\ viol' = viol \cup r.v \cup Quiet(ev) \cup vRes \cup vDrift
                         \cup (IF ev.call = "read_basis" /\ s0.live /\ s0.sync /\ UNKNOWN \notin SetOfSeq(s0.lp.cname) /\ UNKNOWN \notin SetOfSeq(s0.lp.rname)
                                   /\ \E f \in glob.files : f.f = ev.file /\ BF!WellFormedLines(f.lines, s0.lp.cname, s0.lp.rname)
                                THEN LET f == CHOOSE f \in glob.files : f.f = ev.file
